@@ -1129,6 +1129,8 @@ func (gs *GossipSubRouter) handleGraft(p peer.ID, ctl *pb.ControlMessage) []*pb.
 			// refresh the backoff
 			gs.addBackoff(p, topic, false)
 			prune = append(prune, topic)
+			// the penalty has lowered the score; the remaining GRAFTs are judged with the new one
+			score = gs.score.Score(p)
 			continue
 		}
 
